@@ -15,10 +15,15 @@
 #include <stdint.h>
 #include <unistd.h>
 #include <sys/wait.h>
+#include <setjmp.h>
 #include <gmp.h>
 #include <intbig.h>
 #include <quaternion.h>
 #include "internal.h"
+#ifndef DRV_NO_KLPT
+#include <quaternion_data.h>
+#include <klpt.h>
+#endif
 
 int two_adic_valuation(int n);
 int ibz_cornacchia_special_prime(ibz_t *x, ibz_t *y, const ibz_t *n, const ibz_t *p, const int exp_adjust);
@@ -27,11 +32,17 @@ int ibz_cornacchia_special_prime(ibz_t *x, ibz_t *y, const ibz_t *n, const ibz_t
 static unsigned char *g_stream = NULL;
 static size_t g_len = 0, g_pos = 0;
 
+static int g_jump_on_exhaust = 0;
+static jmp_buf g_jmp;
+
 int
 randombytes(unsigned char *x, unsigned long long xlen)
 {
-    if (g_pos + xlen > g_len)
+    if (g_pos + xlen > g_len) {
+        if (g_jump_on_exhaust)
+            longjmp(g_jmp, 1); /* callers that ignore the return value (represent_integer): stop the experiment */
         return 1;
+    }
     memcpy(x, g_stream + g_pos, xlen);
     g_pos += xlen;
     return 0;
@@ -270,6 +281,29 @@ do_op(void)
         int ok = ibz_4x4_right_ker_mod_power_of_2(&k, &m, e);
         if (ok) { printf("1"); for (int i = 0; i < 4; i++) { printf(" "); puti(&k[i]); } } else printf("0");
         ibz_mat_4x4_finalize(&m); ibz_vec_4_finalize(&k);
+#ifndef DRV_NO_KLPT
+    } else if (!strcmp(op, "repint") && ntok == 6) {
+        /* repint <non_diag> <trials (informative)> <p (informative)> <n> <stream>: the real function at this level */
+        quat_alg_elem_t gam;
+        quat_alg_elem_init(&gam);
+        geti(&a, tok[4]);
+        set_stream(tok[5]);
+        int nd = (int)strtol(tok[1], NULL, 16);
+        g_jump_on_exhaust = 1;
+        if (setjmp(g_jmp) == 0) {
+            int found = nd ? represent_integer_non_diag(&gam, &a, &QUATALG_PINFTY) : represent_integer(&gam, &a, &QUATALG_PINFTY);
+            g_jump_on_exhaust = 0;
+            if (found) {
+                printf("1 "); puti(&a);
+                for (int i = 0; i < 4; i++) { printf(" "); puti(&gam.coord[i]); }
+                printf(" "); puti(&gam.denom); printf(" %zx", g_pos);
+            } else printf("0");
+        } else {
+            g_jump_on_exhaust = 0;
+            printf("ub");
+        }
+        quat_alg_elem_finalize(&gam);
+#endif
     } else if ((!strcmp(op, "howell") || !strcmp(op, "kermod")) && ntok >= 4) {
         int rows = (int)strtol(tok[1], NULL, 16), cols = (int)strtol(tok[2], NULL, 16);
         if (cols < 1 || cols > rows || ntok != 4 + rows * cols) {
